@@ -334,12 +334,12 @@ def save_event(tg, eid, blanks, lo=None, hi=None, use_t=True, threshold=None, gr
 # --------------------------------------------------------------------------- concretization of TLC documents / files
 
 NUMBER_POOLS = {
-    # id -> float, monotone in id (0 <= v1 < v2 <= v9, v3 <= v9); id 0 is always 0.0 (spelled -0 by class neg0)
+    # id -> float, strictly monotone in id; id 0 is always 0.0 (spelled -0 by class neg0)
     "plain": {0: 0.0, 1: 0.1, 2: 0.30000000000000004, 3: 1.0 / 3.0, 9: 123456789.125},
     "tiny": {0: 0.0, 1: 1e-17, 2: 5e-05, 3: 9.999999999999999e-05, 9: 0.001},
     "nearint": {0: 0.0, 1: 0.9999999999999999, 2: 2.000000000000001, 3: 3.0000000001, 9: 1e15},
     "ints": {0: 0.0, 1: 1.0, 2: 2.0, 3: 3.0, 9: 9007199254740992.0},
-    "dyadic": {0: 0.0, 1: 0.5, 2: 1.25, 3: 2.0 ** -20, 9: 1024.0625},
+    "dyadic": {0: 0.0, 1: 0.5, 2: 1.25, 3: 1.25 + 2.0 ** -20, 9: 1024.0625},
 }
 
 
@@ -381,6 +381,10 @@ LABEL_POOLS = {
     "emoji": {"x": "\U0001F600", "item": "points [3]:", "=": "==", "7": "007", "n": "tier one", "p": "p",
               "[2]:": "item []:", "IntervalTier": "IntervalTier", "text": "xmin = 0", "_2": "_2"},
 }
+LABEL_POOLS["plainwords"] = {"x": "x", "item": "item", "=": "=", "7": "7", "n": "n", "p": "p", "[2]:": "[2]", "IntervalTier": "Interval",
+                             "text": "text", "_2": "_2"}
+LABEL_POOLS["plainuni"] = {"x": "é日本", "item": "\U0001F600", "=": " = ", "7": "3.5", "n": "Mary", "p": "ποιντς", "[2]:": "b c",
+                           "IntervalTier": "Tier", "text": "mark", "_2": "_2"}
 CLASS_CHARS = {"Q": '"', "NL": "\n", "SP": " ", "BANG": "!", "LT": "<", "GT": ">", "DOT": ".", "PL": "+", "MI": "-",
                "E": "e", "PC": "%"}
 
@@ -454,3 +458,19 @@ def abs_label(s):
             out.append(["O", "?" + ch])
         i += 1
     return out
+
+
+def derail_features(strs, layout):
+    """does a name/label contain one of the keywords praatio's text readers search the raw text for?
+    layout: short | long | elan | json | tgjson"""
+    has = lambda *ks: any(k in s_ for s_ in strs for k in ks)
+    f = {"kw_item_bracket": has("item [", "intervals [", "points [", "item["),
+         "kw_class_quote": has('"IntervalTier"', '"TextTier"'),
+         "kw_class_assign": has('class = "IntervalTier"'),
+         "kw_short_marker": has("ooTextFile short")}
+    text_layout = layout in ("short", "long", "elan")
+    f["derails_reader"] = bool(
+        (text_layout and f["kw_item_bracket"])                       # flips the short/long sniffing, splits tiers/entries
+        or (layout == "short" and f["kw_class_quote"])               # block search of the short reader
+        or (layout in ("long", "elan") and (f["kw_class_assign"] or f["kw_short_marker"])))  # tier-type test / sniffing
+    return f
